@@ -7,6 +7,15 @@ hook_shas = [l.split()[0] for l in hooks_commits if l.split(' ',1)[1].startswith
 
 # property id -> (engine, technique, level text, level note, design_ref)
 CHECKS = {
+ 'C01': ('hist', 'explicit-state exploration of operation histories on the real store in lock-step with a reference model; state matching on the complete internal dump; per state every reverse accessor is compared with a scan of the forward references',
+         'Every history of valid operations (annotate with all nine selector kinds, relative offsets, range-compressed complex selectors; remove annotation/data/key/resource/dataset, strict and non-strict) up to depth 4 (quick) / 5 (thorough) is executed on the real store and on the model; in every reached state all reverse lookups named in the property plus index_totalcount must equal what a scan of the live annotations forward references gives, and the forward references must equal what the builder resolved to.',
+         'Bounded depth and alphabet (hist.rs enabled_ops). Trusted: model.rs (documented semantics), observe.rs (own walk over the public Selector enum), hook H1 for state matching only.', 'DESIGN.md section 4 C01'),
+ 'C02': ('hist', 'explicit-state exploration of operation histories; transition oracle on every removal: model cascade vs real survivors, plus no-dangling probes (iteration, queries, to_json_string)',
+         'Same exploration as C01; for every removal transition enabled in every reached state: Ok whenever the item exists, the live annotations / data / keys afterwards are exactly the documented cascade (non-strict keeps annotations that still have data), nothing else changes, and every forward accessor, a query battery and JSON serialisation complete without error.',
+         'Bounded depth and alphabet. Trusted: model.rs cascade rules (transcribed from the rustdoc of remove_*).', 'DESIGN.md section 4 C02'),
+ 'C03': ('hist', 'explicit-state exploration of histories with per-state exhaustive id lookups and duplicate-id / reindex / strip-ids probes, plus exhaustive enumeration of lookup strings up to a length bound',
+         'In every reached state every identifier that ever existed, fixed never-used ids and all temporary ids of every letter are looked up as every kind through the accessors and resolve_* functions and compared with the model (live item carrying that id, else nothing); probes re-check after duplicate-id insertion, reindex() and strip ids; all strings of length <= 3/4 over a 12-symbol alphabet (incl. multi-byte upper-case letters) are looked up in a fixed store.',
+         'Bounded depth, alphabet and string length. Temporary-id syntax assumed to be "!" + kind letter + decimal handle.', 'DESIGN.md section 4 C03'),
  'C13': ('enum', 'bounded-exhaustive enumeration of all pairs of ranges / sets x all operator variants against interval-arithmetic definitions and algebraic laws (small-scope model checking of the relation code)',
          'Every ordered pair of ranges and every ordered pair of sets (<=2 ranges quick, <=3 thorough) over short texts, crossed with all 104 operator variants, is evaluated on the real test()/test_set() functions through all five receivers and compared with an executable reading of the documentation plus the converse / symmetry / complement / implication / singleton laws. Exhaustive within the stated bounds, no sampling.',
          'Bounded: texts of 4-6 codepoints, sets of at most 3 ranges. Trusted: the interval-arithmetic transcription of the doc comments (c13.rs: pair_def/set_def).', 'DESIGN.md section 4 C13'),
